@@ -86,3 +86,6 @@ Inductive ctx_binding := CtxAtRun | CtxAtInit | CtxBindUnknown.
 (* lab.TaskCoordinator.run / process_completed_tasks: which outcomes handed back by runner.wait() count as a failed task —
    every BaseException instance (what the runners catch and hand back), or Exception instances only? *)
 Inductive fail_test := FailBaseException | FailException | FailTestUnknown.
+
+(* ForkProcessRunner.close: does closing a runner remove its own entry of the fork-memory registry only, or empty the registry? *)
+Inductive close_mode := CloseOwn | CloseAll | CloseUnknown.
